@@ -77,15 +77,13 @@ def canon(t):
     return {"o": t["o"], "a": args}
 
 
-def reduce_sel(t, sel_index):
-    """evaluate chooses / if_true_then_else of a specification term for a concrete selector"""
+def reduce_sel(t, alt_index, nary=None):
+    """evaluate the chooses / if_true_then_else node of a specification term: Python picks alternative alt_index"""
     if "a" not in t:
         return t
-    if t["o"] == "chooses":
-        return reduce_sel(t["a"][1]["a"][sel_index], sel_index)
-    if t["o"] == "if_true_then_else":
-        return reduce_sel(t["a"][1]["a"][0 if sel_index else 1], sel_index)
-    return {"o": t["o"], "a": [reduce_sel(x, sel_index) for x in t["a"]]}
+    if t["o"] in ("chooses", "if_true_then_else"):
+        return reduce_sel(t["a"][1]["a"][alt_index], alt_index)
+    return {"o": t["o"], "a": [reduce_sel(x, alt_index) for x in t["a"]]}
 
 
 class World:
